@@ -1,4 +1,5 @@
 import Goflow.Conc.FileTransport
+import Goflow.Generated.Sync
 /-!
   C19 — File output: each message written once and intact, also across rotation.
   Proved for the write-under-read-lock protocol, any number of senders, any number of rotations,
@@ -112,6 +113,17 @@ theorem each_once (n : Nat) (sched : List Ev) (i : Nat) :
 theorem units_in_one_file (st : St) (i : Nat) :
     (written st).count i = ((st.log.filter fun e => e.2 == i).map (·.1)).length := by
   simp only [written, List.count_eq_length_filter, List.length_map, List.filter_map, Function.comp_def]
+
+/-- Send takes the read lock, releases it only on return (defer) and issues exactly one Fprint of
+    data+separator in between; the rotation closes and reopens under the write lock
+    (regenerated from transport/file/transport.go on every run) -/
+theorem skeleton_matches :
+    Goflow.Generated.skFileSend =
+      ["d.lock.RLock()", "defer d.lock.RUnlock()", "verifPoint(\"file.send.picked\")", "fmt.Fprint(w, string(data)+d.lineSeparator)"] ∧
+    Goflow.Generated.skFileInit =
+      ["d.lock.Lock()", "d.openFile()", "d.lock.Unlock()", "go", "select{<-c | <-d.q}", "d.lock.Lock()", "d.file.Close()",
+       "d.openFile()", "d.lock.Unlock()", "verifPoint(\"file.reopened\")"] := by
+  decide +kernel
 
 /-- non-vacuity: 3 senders and 2 rotations, everything written once -/
 example : written (run true (init 3) [.send 0, .rotate, .send 2, .rotate, .send 1]) = [0, 2, 1] ∧
